@@ -45,3 +45,60 @@ def found_equalities(F, SK, st2, base_eff):
                     if isinstance(da, tuple) and isinstance(db, tuple) and da[:1] == ('addr',) and db[:1] == ('addr',):
                         eqs.append((da[1], db[1]))          # same address, same object
     return eqs
+
+
+def call_storage_refs(F, S, f):
+    """[(description)] for every reference / pointer member of an object that outlives the call (emplaced in a pool, inserted in a
+    table, allocated) which designates storage of the call itself: a by-value parameter, or a local / temporary object."""
+    import contracts
+    out = []
+    byval = set()
+    for i, p in enumerate(f.get('params', [])):
+        t = p['t'].strip()
+        if not (t.endswith('&') or t.endswith('*') or t.endswith('&&')) and t.replace('const ', '') in F.rec:
+            byval.add(i)
+    try:
+        paths = S.run(f['id'])
+    except Unsupported:
+        return None
+    for st, k, v in paths:
+        if k != 'return':
+            continue
+        persistent = {oid for oid, o in st.heap.items() if o.origin and o.origin[0] in ('emplace', 'tree', 'new')}
+        # a table node built as a copy of its key is recorded among the table's contents
+        for objs in st.contents.values():
+            for ov in objs:
+                if isinstance(ov, tuple) and ov[:1] == ('obj',) and ov[1] in st.heap:
+                    persistent.add(ov[1])
+        # sub-objects held by value inside persistent objects are persistent too
+        grew = True
+        while grew:
+            grew = False
+            for oid in list(persistent):
+                cls = st.heap[oid].cls
+                decl = {fl['name']: fl for c in [cls] + F.ancestors(cls) for fl in (F.rec.get(c) or {}).get('fields', [])}
+                for fname, fv in st.heap[oid].fields.items():
+                    fl = decl.get(fname)
+                    if fl and (fl.get('ref') or fl['t'].rstrip().endswith('*')):
+                        continue        # a reference / pointer member designates, it does not hold
+                    if isinstance(fv, tuple) and fv and fv[0] == 'obj' and fv[1] in st.heap and fv[1] not in persistent:
+                        persistent.add(fv[1]); grew = True
+        for oid in sorted(persistent):
+            o = st.heap[oid]
+            r = F.rec.get(o.cls)
+            if not r:
+                continue
+            flds = {fl['name']: fl for c in [o.cls] + F.ancestors(o.cls) for fl in (F.rec.get(c) or {}).get('fields', [])}
+            for name, fv in o.fields.items():
+                fl = flds.get(name)
+                if not fl or not (fl.get('ref') or fl['t'].rstrip().endswith('*')):
+                    continue
+                t = fv
+                while isinstance(t, tuple) and t and t[0] in ('addr', 'castto'):
+                    t = t[1] if t[0] == 'addr' else t[2]
+                if isinstance(t, tuple) and t[:1] == ('param',) and t[1] in byval:
+                    out.append(f'{contracts.short(o.cls)}::{name} refers to the by-value parameter `{f["params"][t[1]]["name"] or t[1]}`, which ends with the call')
+                elif isinstance(t, tuple) and t[:1] == ('obj',) and t[1] in st.heap and t[1] not in persistent \
+                        and (st.heap[t[1]].origin or ('ctor',))[0] in ('ctor', 'copy', 'aggregate', 'temp'):
+                    out.append(f'{contracts.short(o.cls)}::{name} refers to a local / temporary {contracts.short(st.heap[t[1]].cls)} object of the call')
+    return sorted(set(out))
